@@ -34,7 +34,8 @@ P=$(echo "$S1" | awk '{print $1}'); F=$(echo "$S1" | awk '{print $3}')
 if [ "${F:-1}" != "0" ] || [ "${P:-0}" -lt 105 ]; then echo "REJECT: suite not green ($S1)"; [ "${FORCE:-}" = 1 ] || exit 1; fi
 if [ "$PROP" = "C20" ]; then
   # compile witness: the demo must build only WITH the change
-  [ $RC_WITH -eq 0 ] && [ $RC_WITHOUT -ne 0 ] || { echo "REJECT: C20 demo must compile with the change and fail to compile without"; exit 1; }
+  # compile witness (builds only WITH the change) or a run-time probe (fails only WITH the change)
+  { [ $RC_WITH -eq 0 ] && [ $RC_WITHOUT -ne 0 ]; } || { [ $RC_WITH -ne 0 ] && [ $RC_WITHOUT -eq 0 ]; } || { echo "REJECT: C20 demo does not discriminate"; exit 1; }
 else
   [ $RC_WITH -ne 0 ] && [ $RC_WITHOUT -eq 0 ] || { echo "REJECT: demo does not discriminate"; exit 1; }
 fi
